@@ -790,6 +790,39 @@ static void run() {
       fclose(f);
       if (ino->data != enc.bytes) fail("save/file_differs_from_string", fname, "save(FILE*) wrote " + std::to_string(ino->data.size()) + " bytes that differ from save(Format) (" + std::to_string(enc.bytes.size()) + " bytes)");
     }
+    // save(filename) onto the simulated disk (fopen is routed to the simulated file system)
+    if (choose(4, "save.by_name") == 3) {
+      vfs::mkdir_p("/sim/pics");
+      string path = string("/sim/pics/out.") + phosg::Image::file_extension_for_format(fmt);
+      if (choose(2, "save.by_name.preexisting")) vfs::mkfile(path, string(enc.bytes.size() + 17, 'Z')); // must be replaced, not overwritten in place
+      try {
+        if (choose(2, "save.by_name.form")) img.save(path, fmt);
+        else img.save(path.c_str(), fmt);
+      } catch (const std::exception& e) {
+        fail("save/threw", fname, string("Image::save(filename) threw on a healthy disk: ") + e.what());
+      }
+      auto n = vfs::lookup(path);
+      if (!n || n->data != enc.bytes) fail("save/file_differs_from_string", string(fname) + "/by_name", "save(filename) left " + std::to_string(n ? n->data.size() : 0) + " bytes on disk that differ from save(Format) (" + std::to_string(enc.bytes.size()) + " bytes)");
+      if (vfs::open_fd_count()) fail("save/stream_left_open", fname, "save(filename) did not close the file");
+      VS_PROBE("saved_by_filename");
+      if (container != 2) {
+        // and load it back by name
+        set_context(string("load/by_name/") + fname);
+        try {
+          phosg::Image back = choose(2, "load.by_name.form") ? phosg::Image(path) : phosg::Image(path.c_str());
+          Pic got;
+          extract(back, got);
+          string d = pic_diff(got, enc.expect, true);
+          if (!d.empty()) fail("roundtrip/differs", string(fname) + "/by_name", "save(filename) then Image(filename) does not reproduce the image: " + d);
+        } catch (const AbortRun&) {
+          throw;
+        } catch (const std::exception& e) {
+          fail("load/valid_file_rejected", string(fname) + "/by_name", string("Image(filename) rejected the file just saved: ") + e.what());
+        }
+        if (vfs::open_fd_count()) fail("load/stream_left_open", fname, "Image(filename) did not close the file");
+        VS_PROBE("loaded_by_filename");
+      }
+    }
     // validity of the output for an independent decoder
     if (src.cw == 8) {
       Pic dec;
@@ -1015,7 +1048,7 @@ int main(int argc, char** argv) {
       {"glibc stdio, zlib", "real"},
       {"disk / file", "stub: simulated inode behind fopencookie (vsim/vfs.cc): durable prefix, scripted read sizes and EIO, capacity (full disk), short writes"},
       {"PNG/BMP/PPM reference decoders and foreign-file encoders", "harness code in engines/sim_image.cc sharing no code with phosg"}};
-  e.expected_probes = {"independent_decode_checked", "width_not_multiple_of_4", "grayscale_input", "bmp_bitfields_input", "bmp_top_down_input", "torn_every_prefix_of_a_file", "save_hit_full_disk"};
+  e.expected_probes = {"independent_decode_checked", "width_not_multiple_of_4", "grayscale_input", "bmp_bitfields_input", "bmp_top_down_input", "torn_every_prefix_of_a_file", "save_hit_full_disk", "saved_by_filename", "loaded_by_filename"};
   e.expected_faults = {"truncation", "EIO@read", "short_read", "short_write", "ENOSPC@capacity"};
   return driver_main(argc, argv, e);
 }
